@@ -249,26 +249,26 @@ def delete_one(exe, base, mode, how, only=None):
     kfile = os.path.join(base, "del1-%s-%s.okl" % (mode, how))
     open(kfile, "w").write(kernel_file_text(7))
     run_build(exe, cache, mode, how, 7, kfile)
+    pristine = cache + "-pristine"
+    shutil.rmtree(pristine, ignore_errors=True)
+    shutil.copytree(cache, pristine, symlinks=True)
     res = []
-    for p in listing(cache):
-        rel = os.path.relpath(p, cache)
+    for p0 in listing(pristine):
+        rel = os.path.relpath(p0, pristine)
         if only and rel.split("/")[-1] != only:
             continue
-        if not os.path.exists(p):
-            continue
-        os.unlink(p)
+        # every trial starts from the complete cache (a rebuild does not necessarily restore the removed file)
+        shutil.rmtree(cache, ignore_errors=True)
+        shutil.copytree(pristine, cache, symlinks=True)
+        os.unlink(os.path.join(cache, rel))
         # the kernel's own binary goes too, otherwise the next process just loads it and stages nothing
         for q in listing(cache):
             if os.path.basename(q) == "binary" and os.path.exists(os.path.join(os.path.dirname(q), "build.json")):
                 os.unlink(q)
         rc, line = run_build(exe, cache, mode, how, 7, kfile)
         res.append(dict(mode=mode, how=how, removed=rel, line=line, ok=(line == EXPECT[7])))
-        if line != EXPECT[7]:
-            # start again from a clean, complete cache so that one failure does not mask the others
-            shutil.rmtree(cache, ignore_errors=True)
-            os.makedirs(cache)
-            run_build(exe, cache, mode, how, 7, kfile)
     shutil.rmtree(cache, ignore_errors=True)
+    shutil.rmtree(pristine, ignore_errors=True)
     return res
 
 
